@@ -303,6 +303,18 @@ def _r5(ctx, repo):
                msg="a callable with required parameters is wrapped in wildcard mode: it is called with whatever x,y,z are visible in enclosing frames, not with exactly its arguments")
 
 
+# functions whose mechanical mutants are swept in the thorough tier (coverage evidence, see sa/mutate.py)
+MUTATION_SCOPE = ['types:KGLambda.__init__',
+                  'types:KGLambda.__call__',
+                  'types:KGLambda.call_with_kwargs',
+                  'types:KGLambda._get_pos_args',
+                  'types:KGFnWrapper.__init__',
+                  'types:KGFnWrapper.__call__',
+                  'interpreter:set_context_var',
+                  'interpreter:KlongInterpreter.__getitem__',
+                  'interpreter:KlongInterpreter.__setitem__',
+                  'interpreter:KlongInterpreter.__delitem__']
+
 SEEDS = [
     Seed("probe-call", "fault", "types", "        pos_args = self._get_pos_args(ctx)\n        return self.fn(klong, *pos_args) if self._provide_klong else self.fn(*pos_args)\n\n    def call_with_kwargs",
          "        pos_args = self._get_pos_args(ctx)\n        if self._provide_klong:\n            self.fn(klong, *pos_args)\n        return self.fn(klong, *pos_args) if self._provide_klong else self.fn(*pos_args)\n\n    def call_with_kwargs", rule="C09-R1"),
